@@ -115,6 +115,10 @@ pub struct KnownFinding
 	pub property: String,
 	pub signature: String,
 	pub what: String,
+	/// A complete program that reaches the defect (panic findings only): the finding is identified
+	/// by this input, so that renaming the function around the panic site does not turn it into a
+	/// new violation.
+	pub anchor: Option<String>,
 }
 
 pub fn load_known_findings() -> Vec<KnownFinding>
@@ -133,7 +137,74 @@ pub fn load_known_findings() -> Vec<KnownFinding>
 			property: f["property"].as_str().unwrap_or("").to_string(),
 			signature: f["signature"].as_str().unwrap_or("").to_string(),
 			what: f["what"].as_str().unwrap_or("").to_string(),
+			anchor: f["anchor"].as_str().map(|s| s.to_string()),
 		});
+	}
+	out
+}
+
+/// `panic@file::function:message` signatures that differ in the function name only.
+fn same_but_function(listed: &str, seen: &str) -> bool
+{
+	fn parts(s: &str) -> Option<(&str, &str)>
+	{
+		let rest = s.strip_prefix("panic@")?;
+		let (file, tail) = rest.split_once("::")?;
+		let (_function, message) = tail.split_once(':')?;
+		Some((file, message))
+	}
+	match (parts(listed), parts(seen))
+	{
+		(Some(a), Some(b)) => a == b,
+		_ => false,
+	}
+}
+
+/// For every listed panic finding of this property that records an anchor program: the signature
+/// that program produces on the current tree (index into `known`, signature).
+fn current_anchor_signatures(known: &[KnownFinding], id: &str) -> Vec<(usize, String)>
+{
+	use std::io::Write;
+	let mut out = Vec::new();
+	let Ok(exe) = std::env::current_exe()
+	else
+	{
+		return out;
+	};
+	for (k, f) in known.iter().enumerate()
+	{
+		let Some(anchor) = &f.anchor
+		else
+		{
+			continue;
+		};
+		if f.property != id || !f.signature.starts_with("panic@")
+		{
+			continue;
+		}
+		let child = std::process::Command::new(&exe)
+			.arg("anchor-sig")
+			.stdin(std::process::Stdio::piped())
+			.stdout(std::process::Stdio::piped())
+			.stderr(std::process::Stdio::null())
+			.spawn();
+		let Ok(mut child) = child
+		else
+		{
+			continue;
+		};
+		if let Some(mut stdin) = child.stdin.take()
+		{
+			let _ = stdin.write_all(anchor.as_bytes());
+		}
+		if let Ok(o) = child.wait_with_output()
+		{
+			let text = String::from_utf8_lossy(&o.stdout);
+			if let Some(line) = text.lines().rev().find(|l| l.starts_with("panic@"))
+			{
+				out.push((k, line.to_string()));
+			}
+		}
 	}
 	out
 }
@@ -171,11 +242,24 @@ pub fn finish(d: Driver, level_text: &str) -> i32
 	let known = load_known_findings();
 	let mut new_violations: Vec<&Violation> = Vec::new();
 	let mut known_seen: Vec<(String, String)> = Vec::new();
+	let mut anchors: Option<Vec<(usize, String)>> = None;
 	for (sig, v) in &d.total.violations
 	{
-		match known.iter().find(|k| k.property == d.id && &k.signature == sig)
+		let mut found = known.iter().find(|k| k.property == d.id && &k.signature == sig);
+		if found.is_none() && sig.starts_with("panic@")
 		{
-			Some(k) => known_seen.push((sig.clone(), k.what.clone())),
+			// A panic at an unlisted site: is it a listed finding whose site is now in a function
+			// of another name? Run the recorded inputs of the listed panic findings on this tree.
+			let current = anchors.get_or_insert_with(|| current_anchor_signatures(&known, &d.id));
+			found = current
+				.iter()
+				.find(|(k, now)| now == sig && same_but_function(&known[*k].signature, sig))
+				.map(|(k, _)| &known[*k]);
+		}
+		match found
+		{
+			Some(k) if &k.signature == sig => known_seen.push((sig.clone(), k.what.clone())),
+			Some(k) => known_seen.push((sig.clone(), format!("{} (listed as {}; identified by its recorded input)", k.what, k.signature))),
 			None => new_violations.push(v),
 		}
 	}
